@@ -828,6 +828,97 @@ def u17(ctx, rid):
         ctx.ok(rid, 'meta-restriction-is-some-or-none', '', 'no emptiness / size question on a Meta in %d functions of the lookup paths' % n, nontrivial=False, queries=n)
 
 
+def _param_true_edges(f, name):
+    """blocks entered where the bool parameter `name` of body f (or of its coroutine parent) is known to be true"""
+    out = []
+    for i in f.reachable():
+        t = f.blocks[i]['t']
+        if t['k'] != 'switch':
+            continue
+        ogs = core.origins(f, t['o'])
+        neg = False
+        if ogs and all(o.kind == 'unop' and o.data.get('op') == 'Not' for o in ogs):
+            neg = True
+            ogs = [x for o in ogs for x in core.origins(f, o.data['o'])]
+        hit = False
+        for o in ogs:
+            if o.kind == 'arg' and f.debug_name(o.data) == name:
+                hit = True
+            if o.kind == 'upvar' and f.upvar_name(o.data) == name:
+                hit = True
+        if not hit or len(ogs) != 1:
+            continue
+        zero = [tg for v, tg in t['vals'] if v == 0]
+        if neg:
+            out += zero
+        else:
+            out.append(t['otherwise'])
+    return out
+
+
+def u18(ctx, rid):
+    """`delete appends a marker to the active blob always`: an unconditional delete (only_if_presented == false) of a blob always
+    appends - whatever the latest record of the key in that blob is (a second delete over an older marker moves the deletion
+    forward in time).  In Blob::delete an Ok return that did not pass the append is reachable only through the
+    `only_if_presented is true` edge."""
+    prog = ctx.prog
+    f = prog.body_of('blob::core::Blob::<K>::delete')
+    if f is None:
+        raise core.AnchorLost('Blob::delete')
+    key = 'unconditional-delete-always-appends|blob::core::Blob::<K>::delete'
+    L, E = prog.may_reach()
+    apps = [c.bb for c in f.calls if c.bb in f.reachable() and c.name != 'poll' and any(
+        t in prog.fns and any('write_append' in x for x in [t] + sorted(L.get(t, ()))) for t in prog.resolve(c))]
+    cond = _param_true_edges(f, 'only_if_presented')
+    exits = [bb for (bb, k, _) in core.exit_defs(f) if k in ('ok', 'fwd') and bb in f.reachable()]
+    if not apps or not exits:
+        raise core.AnchorLost('append / ok exits in Blob::delete')
+    free = f.reach_from([0], avoid_exit=apps, avoid_enter=cond)
+    skipped = [e for e in exits if e in free and not any(e in f.reach_from(f.after(a)) and e not in f.reach_from([0], avoid_exit=[a]) for a in apps)]
+    skipped = [e for e in exits if e in free]
+    if not cond:
+        ctx.bad(rid, key, f.where(), 'Blob::delete does not branch on only_if_presented')
+    elif skipped:
+        ctx.bad(rid, key, f.where(skipped[0]), 'Blob::delete can return Ok without appending a marker although only_if_presented is false: an unconditional delete over a key whose latest record is already a marker (or is absent) is acknowledged and dropped - the deletion time does not move forward, a later write with a timestamp in between becomes visible')
+    else:
+        ctx.ok(rid, key, f.where(), 'every Ok return without an append lies behind the `only_if_presented` edge')
+
+
+def u19(ctx, rid):
+    """`write stores the record unless duplicates are disallowed and the same key and metadata is already live`: in the storage
+    write path an Ok return that did not pass the append is reachable only after the duplicate check (contains_with) ran - no
+    other shortcut (`this looks like a retry`) may acknowledge a write without storing it"""
+    prog = ctx.prog
+    f = prog.body_of('storage::core::Storage::<K>::write_with_optional_meta')
+    if f is None:
+        raise core.AnchorLost('Storage::write_with_optional_meta')
+    key = 'ok-without-append-only-for-duplicates|storage::core::Storage::<K>::write_with_optional_meta'
+    L, E = prog.may_reach()
+
+    def reaches(c, suffix):
+        if c.name == 'poll':
+            return False
+        for t in prog.resolve(c):
+            if t.endswith(suffix):
+                return True
+            # a helper of the storage module that performs the step (`append_to_active_blob`, `is_duplicate`)
+            if t in prog.fns and prog.fns[t].file == f.file and any(x.endswith(suffix) for x in L.get(t, ())):
+                return True
+        return False
+    apps = [c.bb for c in f.calls if c.bb in f.reachable() and reaches(c, 'Blob::<K>::write')]
+    dup = [c for c in f.calls if c.bb in f.reachable() and reaches(c, '::contains_with') and not reaches(c, 'Blob::<K>::write')]
+    dup_ok = [x for x in (core.ok_block(f, c) or core.completion_block(f, c) for c in dup) if x is not None]
+    exits = [bb for (bb, k, _) in core.exit_defs(f) if k in ('ok', 'fwd') and bb in f.reachable()]
+    if not apps or not dup or not exits:
+        raise core.AnchorLost('append / duplicate check / ok exits in write_with_optional_meta')
+    free = f.reach_from([0], avoid_exit=apps, avoid_enter=dup_ok)
+    early = [e for e in exits if e in free]
+    if early:
+        ctx.bad(rid, key, f.where(early[0]), 'a write can be acknowledged (Ok) without having been appended and without the duplicate check having found the record: a value that merely resembles the stored one (same timestamp, size, checksum) is dropped and later reads return other bytes')
+    else:
+        ctx.ok(rid, key, f.where(), 'every Ok return passes the append or the completed duplicate check')
+
+
 RULES = [
     Rule('C02.U1', 'the append in the write path is dominated by the duplicate policy branch; a found duplicate is acknowledged without storing', u1, 1),
     Rule('C02.U2', 'closed blobs are only ever marked with only_if_presented = true', u2, 2),
@@ -845,5 +936,7 @@ RULES = [
     Rule('C02.U15', 'read_all strips exactly the trailing deletion marker of the marker-terminated list', u15, 1),
     Rule('C02.U16', 'the storage point lookups answer only after the traversal of all blobs completed', u16, 2),
     Rule('C02.U17', 'whether a lookup is restricted by metadata depends on Some / None only (an empty map is a map)', u17, 1),
+    Rule('C02.U18', 'an unconditional delete of a blob always appends a marker', u18, 1),
+    Rule('C02.U19', 'a write is acknowledged without an append only after the duplicate check', u19, 1),
     Rule('C02.U6', 'the point lookup consults every candidate closed blob before it returns Ok', u6, 1),
 ]
